@@ -4,7 +4,7 @@ import shapes, nslgen, genvec, gentyped, vmcases, ircoq
 from nslgen import *
 from props import c01
 
-STATIC = ["Model/IR.v", "Model/VM.v", "Model/WfIR.v", "Proofs/WfIRProofs.v"]
+STATIC = ["Model/IR.v", "Model/VM.v", "Model/WfIR.v", "Proofs/WfIRProofs.v", "Proofs/ScalarSafeProofs.v"]
 
 SCAL = ["float", "int", "uint"]
 VECS = [c + str(n) for c in SCAL for n in (2, 3, 4)]
@@ -48,6 +48,12 @@ def families(rng, quick):
         for l, r in pairs:
             m = Module([fn([("a", l), ("b", r)], l, [Decl(l, "x", V("a")), ES(A(V("x"), V("b"), aop)), Ret(V("x"))])])
             out.append(("assign", m, [{"fn": "f", "args": {"a": value(l, rng), "b": value(r, rng, zero_ok=False)}}]))
+    # F2b: the assigned variable is used afterwards (its last component / its value)
+    for l, r in pairs:
+        n = int(l[-1]) if l[-1].isdigit() else 0
+        use = V("x") if n == 0 else (Idx(Idx(V("x"), I(n - 1)), I(n - 1)) if l in MATS else Idx(V("x"), I(n - 1)))
+        m = Module([fn([("a", l), ("b", r)], "float" if l.startswith("float") else "int", [Decl(l, "x", V("a")), ES(A(V("x"), V("b"))), Ret(use)])])
+        out.append(("assign-use", m, [{"fn": "f", "args": {"a": value(l, rng), "b": value(r, rng)}}]))
     # F3: declarations with initialiser of another type; return of another type; argument of another type
     for l, r in pairs:
         out.append(("init", Module([fn([("b", r)], l, [Decl(l, "x", V("b")), Ret(V("x"))])]), [{"fn": "f", "args": {"b": value(r, rng)}}]))
@@ -116,6 +122,17 @@ def families(rng, quick):
             for rt in ("float", "int", "float2", "float3"):
                 out.append(("select-store", Module([fn([("a", t), ("i", "int"), ("s", rt)], t, [ES(A(e, V("s"))), Ret(V("a"))])]),
                             [{"fn": "f", "args": {"a": value(t, rng), "i": 1, "s": value(rt, rng)}}]))
+    # F5d: a swizzle store whose right-hand side is the target itself (or another name of the same value): v.yx = v; b = a; b.wzyx = a;
+    for t in VECS:
+        n = int(t[-1])
+        for perm in itertools.permutations("xyzw"[:n]):
+            sw = "".join(perm)
+            out.append(("swizzle-self", Module([fn([("a", t)], t, [ES(A(Mem(V("a"), sw), V("a"))), Ret(V("a"))])]), [{"fn": "f", "args": {"a": value(t, rng)}}]))
+            out.append(("swizzle-self", Module([fn([("a", t)], t, [Decl(t, "b", V("a")), ES(A(Mem(V("b"), sw), V("a"))), Ret(B("+", V("a"), V("b")))])]), [{"fn": "f", "args": {"a": value(t, rng)}}]))
+        out.append(("swizzle-self", Module([Global(t, "g"), fn([("a", t)], t, [ES(A(Mem(V("g"), "xyzw"[:n][::-1]), V("g"))), Ret(V("g"))])]),
+                    [{"fn": "f", "args": {"a": value(t, rng)}, "globals": {"g": value(t, rng)}}]))
+        if n > 2:
+            out.append(("swizzle-self", Module([fn([("a", t)], t, [ES(A(Mem(V("a"), "xy"), Mem(V("a"), "yx"))), ES(A(Mem(V("a"), "zx"), Mem(V("a"), "xz"))), Ret(V("a"))])]), [{"fn": "f", "args": {"a": value(t, rng)}}]))
     # F5b: index expressions of every scalar type at every position of a chain (only int/uint may pass the front end)
     for it in SCAL:
         for base, dims, chains in (("float", [3, 2], ([("v", "x")], [("v", "x"), ("v", "i")], [("v", "i"), ("v", "x")])),
@@ -153,6 +170,25 @@ def families(rng, quick):
 ALLOWED = ("ZeroDivisionError", "IndexError")
 
 
+def _walk(x):
+    if isinstance(x, dict):
+        yield x
+        for v in x.values():
+            yield from _walk(v)
+    elif isinstance(x, (list, tuple)):
+        for v in x:
+            yield from _walk(v)
+
+
+def allowed_failure(m, exc):
+    """the run-time errors the property leaves to the program: a division by zero needs a division, an index error a computed index"""
+    if exc == "ZeroDivisionError":
+        return any(n.get("k") == "bin" and n.get("op") in ("/", "%") or n.get("k") == "assign" and n.get("op") in ("/=", "%=") for n in _walk(m))
+    if exc == "IndexError":
+        return any(n.get("k") == "idx" and n["i"].get("k") != "int" for n in _walk(m))
+    return False
+
+
 def run(ctx):
     ctx.static_obligations(STATIC)
     repo = ctx.sync_repo(1)[0]
@@ -172,6 +208,11 @@ def run(ctx):
     # random programs: the scalar/array/struct/call generator of C01 and the vector generator of C04
     for (m, calls, text) in c01.gen_programs(ctx, 60 if quick else 1500):
         progs.append(("random-core", m, calls[:2]))
+    # scalar programs (no arrays, structures, vectors): the fragment of theorem C05_scalar_fragment_safe_partial
+    for k in range(60 if quick else 1200):
+        tg = gentyped.TGen(rng, floats=(k % 5 != 0), arrays=False, structs=False, calls=(k % 2 == 0), max_depth=2 + k % 2)
+        m, exported, globs = tg.module()
+        progs.append(("random-scalar", m, tg.calls(exported, globs, 2)))
     g = genvec.VGen(rng)
     for k in range(80 if quick else 2000):
         m, params, globs, ret = g.program()
@@ -203,13 +244,46 @@ def run(ctx):
                 if "fail" in c and c["fail"]["exc"] in ("Timeout", "RecursionError"):     # unbounded loop / recursion of the NSL program itself
                     key += ":no-result-within-time-limit"      # a loop that does not terminate is not an internal error
                     break
-                if "fail" in c and c["fail"]["exc"] not in ALLOWED:
+                if "fail" in c and not allowed_failure(m, c["fail"]["exc"]):
                     bad.append((fam, j, {"stage": "run", "how": c["fail"], "call": spec}))
                     key += ":run-failure"
                     break
             else:
                 key += ":ok"
         dist[key] = dist.get(key, 0) + 1
+    # the proved fragment: membership is decided inside Coq on the real compiler's IR; an in-fragment program that the real VM fails
+    # with one of the excluded error classes contradicts the theorem's transfer to the VM (model/VM correspondence)
+    from common import parse_coq_values
+    frag = [(j, r) for (fam, m, calls), j, r in zip(meta, jobs, res) if fam == "random-scalar" and r["accept"] and "ir" in r]
+    in_fragment = 0
+    per = 40
+    files = []
+    for i in range(0, len(frag), per):
+        f = os.path.join(ctx.dyn, "cases_C05_%d.v" % (i // per))
+        chunk = frag[i:i + per]
+        defs = "".join("Definition P_%d : program := %s.\n" % (i + n, ircoq.program({"functions": r["ir"]["functions"], "globals": r["ir"]["globals"]})) for n, (j, r) in enumerate(chunk))
+        open(f, "w").write(vmcases.HEADER + "From NSL Require Import Proofs.ScalarSafeProofs.\n" + defs + "Definition cases : list Z := [\n  " +
+                           ";\n  ".join("(if forallb fn_safe_b (p_funcs P_%d) then 1 else 0)" % (i + n) for n in range(len(chunk))) + "].\nEval vm_compute in cases.\n")
+        files.append(f)
+    outs = ctx.eval_cases(files, timeout=900) if files else {}
+    flags = []
+    for f in files:
+        ok, out, err = outs[f]
+        vals = parse_coq_values(out) if ok else []
+        if not ok or not vals or not isinstance(vals[0], list):
+            ctx.broken.append("fragment membership: %s did not evaluate: %s" % (os.path.basename(f), err[-300:]))
+            flags.extend([None] * min(per, len(frag) - len(flags)))
+        else:
+            flags.extend(vals[0])
+    EXCLUDED = ("TypeError", "AssertionError", "CompileException", "AttributeError")
+    for (j, r), fl in zip(frag, flags):
+        if fl == 1:
+            in_fragment += 1
+            for c in r.get("calls", []):
+                if "fail" in c and c["fail"]["exc"] in EXCLUDED:
+                    ctx.broken.append("theorem C05_scalar_fragment_safe_partial does not transfer: the real VM raised %s on an IR program inside the proved fragment: %s" % (c["fail"]["exc"], j["src"][:300]))
+    dist["proved-fragment:programs-inside"] = in_fragment
+    dist["proved-fragment:scalar-programs-compiled"] = len(frag)
     # known findings are matched by classifier on (family, stage, exception, raising function)
     kf = ctx.known_findings()
     new = []
@@ -228,11 +302,11 @@ def run(ctx):
     ctx.cov["distinct_nontrivial"] = accepted
     ctx.cov["programs"] = len(progs)
     ctx.cov["rule"] = ("families over all 14 spellable primitive types (float/int/uint scalars, their 2-4 vectors, float3x3, float4x4): every operator on every ordered pair of types; "
-                       "= += -= *= /= between every pair; initialisers, returned expressions and call arguments of every other type; constructors with every tuple of up to 4 argument "
-                       "types (arity and shape mismatches included) followed by a use of the last component; element-selection chains as reads and stores; arrays and structures of every "
+                       "= += -= *= /= between every pair, also followed by a read of the last component of the target; initialisers, returned expressions and call arguments of every other type; constructors with every tuple of up to 4 argument "
+                       "types (arity and shape mismatches included) followed by a use of the last component; element-selection chains as reads and stores; swizzle stores whose right-hand side is the target itself under every permutation; arrays and structures of every "
                        "element type with whole-aggregate copies; default instances; plus random programs of the C01 generator (statements, loops, calls, recursion, arrays, structs, "
-                       "globals) and of the C04 generator (vectors/matrices). Each compiled at both optimisation settings; if the front end lets it through, it is linked and run on inputs of "
-                       "the declared types. Non-trivial = accepted by the compiler. A failure is anything after the AST passes other than ZeroDivisionError / IndexError.")
+                       "globals) and of the C04 generator (vectors/matrices), and scalar-only programs whose real IR is tested inside Coq for membership in the fragment of the type-safety theorem. Each compiled at both optimisation settings; if the front end lets it through, it is linked and run on inputs of "
+                       "the declared types. Non-trivial = accepted by the compiler. A failure is anything after the AST passes other than ZeroDivisionError in a program that divides / IndexError in a program with a computed index.")
     ctx.cov["samples"] = [{"family": f, "source": j["src"][:300]} for (f, m, c), j in list(zip(meta, jobs))[:: max(1, len(jobs) // 5)][:5]]
     ctx.extra["input_distribution"] = dict(sorted(dist.items()))
     ctx.extra["disagreements_checked"] = len(jobs)
@@ -249,7 +323,12 @@ def run(ctx):
 def _return_shape_mismatch(fam, job, what):
     """KF-02: the 'return' family (a helper returns its parameter of type R from a function declared L != R) failing at run time
     with TypeError in the VM"""
-    return fam == "return" and what["stage"] == "run" and what["how"].get("exc") == "TypeError" and what["how"].get("where") == "__Execute"
+    return fam == "return" and what["stage"] == "run" and what["how"].get("exc") in ("TypeError", "IndexError") and what["how"].get("where") == "__Execute"
 
 
-CLASSIFIERS = {"c05_return_shape_mismatch": _return_shape_mismatch}
+def _assign_shape_mismatch(fam, job, what):
+    """KF-04: the 'assign-use' family (x of type L assigned a value of another shape, then a component of x read) failing at run time in the VM"""
+    return fam == "assign-use" and what["stage"] == "run" and what["how"].get("exc") in ("TypeError", "IndexError") and what["how"].get("where") in ("__Execute", "__GetItem", "_GetItem")
+
+
+CLASSIFIERS = {"c05_return_shape_mismatch": _return_shape_mismatch, "c05_assign_shape_mismatch": _assign_shape_mismatch}
